@@ -37,6 +37,9 @@ def shards(tier):
                     continue
                 out.append(dict(part="C", dev=dev, op=op, sgeo=sg, dgeo=dg, k=2 if op != "distribute" else 1, steps=2 if tier == "quick" else 3,
                                 ncand=2 if tier == "quick" else 4, washes=[1], partition_by="auto"))
+        # distribute within ONE trough: the source column is also a destination, followed by a cavity that may overflow
+        out.append(dict(part="C", dev=dev, op="distribute", sgeo="t3x2", dgeo="t3x2", same=True, k=1, steps=1, washes=[1], partition_by="auto",
+                        uniq_dev="none", dsels=[[0, 3], [3, 0], [1, 4]]))
     return out
 
 
@@ -140,6 +143,8 @@ def judge(ctx, p, outcome):
             ctx.violate("C02: VolumeUnderflowError from an operation that removes nothing")
         for (rack, w), v0 in W.pre.items():
             ctx.prove(ctx.le(0, W.labs[rack]._volumes[w]), "C02: negative volume after a rejected operation")
+            # the state a rejected operation leaves behind is a reachable state: it must satisfy the invariant the induction starts from
+            ctx.prove(ctx.le(W.labs[rack]._volumes[w], W.labs[rack].max_volume), "C02: a well is above max_volume after a rejected operation (every later operation starts from this state)")
 
 
 def describe(ctx, p, outcome):
